@@ -1,20 +1,388 @@
+// C08 — rendered iptables/nftables rules match exactly what the policy rule says.
+//
+// Real code driven: rules.NewRenderer(cfg, nft).ProtoRuleToIptablesRules for one generated
+// proto.Rule, both renderers (iptables, nftables), both IP versions; the returned
+// generictables.Rules are turned into text by the REAL renderers
+// (iptables.NewIptablesRenderer.RenderAppend = comments + Match.Render() + Action.ToFragment();
+// nftables.NewNFTRenderer.Render).  That text is evaluated by internal/nfsim on boundary
+// packets and compared with internal/refpolicy.MatchRule.
+//
+// Oracle (the property statement): the rule's action is taken exactly when the rule matches;
+// when it does not match, evaluation falls through to the next rule with the policy-verdict
+// marks (accept, pass, drop) unchanged.
+//
+//	match, allow / ""       accept mark set, pass/drop marks unchanged, RETURN executed
+//	match, pass / next-tier pass mark set, accept/drop marks unchanged, RETURN executed
+//	match, deny             DROP (REJECT when FilterDenyAction=REJECT)
+//	match, log              a LOG action fires and evaluation continues with the next rule,
+//	                        verdict marks unchanged
+//	no match                no terminal verdict, no RETURN, the next rule (a sentinel appended
+//	                        by the check) is reached, verdict marks unchanged, no LOG
+//
+// A rendered rule that the real front end would refuse to load (nfsim "rejected": more than 15
+// multiport slots, wrong address family, icmp match without -p icmp ...) is a violation: the
+// rule can then never take its action.
+//
+// Deliberately not checked:
+//   - the drop mark bit after a deny (only the DROP/REJECT verdict is the rule's action);
+//   - scratch mark bits and mark bits outside Calico's masks (the statement only fixes the
+//     policy-verdict marks);
+//   - NFLOG (flow log) actions: parsed, not judged; LOG prefix text and rate limit;
+//   - entry with a policy-verdict mark already set: the endpoint chains guarantee that a policy
+//     rule is only reached with accept/pass clear (C09 checks that), so packets start with the
+//     accept, pass and drop bits clear and random other bits;
+//   - protocol icmp/icmpv6 combined with the other family's IpVersion (CEL rejects it); a rule
+//     with protocol 1/58 given BY NUMBER, ICMP criteria and no IpVersion (Felix would render
+//     `-p 1 -m icmp6` for IPv6, which the kernel refuses at load time - a loadability question,
+//     not a verdict one): the generator sets the IpVersion for such rules;
+//   - ICMP type 255 (the v3 validator caps the type at 254; iptables treats 255 as "any").
 package main
 
 import (
 	"fmt"
+	"io"
+	"os"
 
-	"github.com/projectcalico/calico/felix/environment"
-	"github.com/projectcalico/calico/felix/iptables"
+	"github.com/sirupsen/logrus"
+	googleproto "google.golang.org/protobuf/proto"
+
+	"github.com/projectcalico/calico/felix/generictables"
+	"github.com/projectcalico/calico/felix/ipsets"
 	"github.com/projectcalico/calico/felix/nftables"
+	"github.com/projectcalico/calico/felix/proto"
 	"github.com/projectcalico/calico/felix/rules"
+	"github.com/projectcalico/calico/felix/types"
+
 	"verif/internal/harness"
+	"verif/internal/nfsim"
+	"verif/internal/refpolicy"
+	"verif/internal/rulegen"
 )
 
+const okCounter = "cases_without_harness_error"
+
+func harnessError(c *harness.Case, err error) {
+	c.Count(okCounter, -1)
+	c.Count("harness_errors", 1)
+	fmt.Fprintf(os.Stderr, "HARNESS-ERROR case %d: %v\n", c.Index, err)
+	c.Inconclusive("harness-error: nfsim could not parse a rendered rule")
+}
+
+// randomMarks assigns distinct random mark bits the way markbits would: single bits for
+// accept/pass/drop/scratch0/scratch1, a block for the endpoint mark, plus one bit the check
+// keeps for its sentinel rule.
+func randomMarks(c *harness.Case) (cfgMarks [5]uint32, endpoint, nonCali, sentinel uint32) {
+	perm := c.R.Perm(32)
+	for i := 0; i < 5; i++ {
+		cfgMarks[i] = 1 << uint(perm[i])
+	}
+	sentinel = 1 << uint(perm[5])
+	for i := 6; i < 10; i++ {
+		endpoint |= 1 << uint(perm[i])
+	}
+	nonCali = 1 << uint(perm[6])
+	return
+}
+
+func ruleBytes(r *proto.Rule) []byte {
+	b, _ := googleproto.MarshalOptions{Deterministic: true}.Marshal(r)
+	return b
+}
+
+func criteriaCount(r *proto.Rule) int {
+	n := 0
+	for _, l := range [][]string{r.SrcNet, r.DstNet, r.NotSrcNet, r.NotDstNet, r.SrcIpSetIds, r.DstIpSetIds, r.NotSrcIpSetIds, r.NotDstIpSetIds,
+		r.SrcNamedPortIpSetIds, r.DstNamedPortIpSetIds, r.NotSrcNamedPortIpSetIds, r.NotDstNamedPortIpSetIds, r.DstIpPortSetIds} {
+		if len(l) > 0 {
+			n++
+		}
+	}
+	for _, l := range [][]*proto.PortRange{r.SrcPorts, r.DstPorts, r.NotSrcPorts, r.NotDstPorts} {
+		if len(l) > 0 {
+			n++
+		}
+	}
+	if r.Protocol != nil {
+		n++
+	}
+	if r.NotProtocol != nil {
+		n++
+	}
+	if r.Icmp != nil {
+		n++
+	}
+	if r.NotIcmp != nil {
+		n++
+	}
+	return n
+}
+
+func run(c *harness.Case) {
+	c.Count(okCounter, 1)
+	g := rulegen.New(c.R, rulegen.Config{})
+	aim := uint8(4)
+	if c.R.Intn(2) == 0 {
+		aim = 6
+	}
+	rule := g.Rule(aim)
+	setMembers := g.SetMembers()
+	sets := g.IPSets()
+
+	m, endpoint, nonCali, sentinel := randomMarks(c)
+	accept, pass, drop, scratch0, scratch1 := m[0], m[1], m[2], m[3], m[4]
+	cfg := rules.Config{
+		IPSetConfigV4:         ipsets.NewIPVersionConfig(ipsets.IPFamilyV4, "cali", nil, nil),
+		IPSetConfigV6:         ipsets.NewIPVersionConfig(ipsets.IPFamilyV6, "cali", nil, nil),
+		WorkloadIfacePrefixes: []string{"cali"},
+		MarkAccept:            accept, MarkPass: pass, MarkDrop: drop, MarkScratch0: scratch0, MarkScratch1: scratch1,
+		MarkEndpoint: endpoint, MarkNonCaliEndpoint: nonCali,
+		FlowLogsEnabled: c.R.Intn(2) == 0,
+		VXLANPort:       4789,
+	}
+	reject := c.R.Intn(4) == 0
+	if reject {
+		cfg.FilterDenyAction = "REJECT"
+	}
+	switch c.R.Intn(4) {
+	case 0:
+		cfg.LogPrefix = "my %t %k %n %p prefix"
+	case 1:
+		cfg.LogActionRateLimit = "10/second"
+		cfg.LogActionRateLimitBurst = c.R.Intn(3) * 5
+	}
+	verdictBits := accept | pass | drop
+	calicoBits := verdictBits | scratch0 | scratch1 | sentinel
+
+	// rule ownership parameters: they only feed NFLOG/LOG prefixes
+	owner, dir := rules.RuleOwnerTypePolicy, rules.RuleDirIngress
+	var id types.IDMaker = &types.PolicyID{Name: "pol-" + fmt.Sprint(c.R.Intn(1000)), Kind: rulegen.EnforcedKinds[c.R.Intn(len(rulegen.EnforcedKinds))], Namespace: []string{"", "ns1"}[c.R.Intn(2)]}
+	if c.R.Intn(3) == 0 {
+		owner, id = rules.RuleOwnerTypeProfile, &types.ProfileID{Name: "prof-" + fmt.Sprint(c.R.Intn(1000))}
+	}
+	if c.R.Intn(2) == 0 {
+		dir = rules.RuleDirEgress
+	}
+	idx := c.R.Intn(300)
+	untracked := c.R.Intn(5) == 0
+	tier := []string{"default", "tier-a", ""}[c.R.Intn(3)]
+
+	act, _ := refpolicy.ActionOf(rule)
+	nCrit := criteriaCount(rule)
+	detail := func(extra map[string]any) map[string]any {
+		d := map[string]any{"rule": rule.String(), "ipsets": setMembers,
+			"marks": fmt.Sprintf("accept=%#x pass=%#x drop=%#x scratch0=%#x scratch1=%#x sentinel=%#x", accept, pass, drop, scratch0, scratch1, sentinel),
+			"flowlogs": cfg.FlowLogsEnabled, "reject": reject}
+		for k, v := range extra {
+			d[k] = v
+		}
+		return d
+	}
+
+	sawMatch, sawNonMatch := false, false
+	for _, ipv := range []uint8{aim, 10 - aim} {
+		n := c.Pick(40, 48)
+		if ipv != aim {
+			n = 8
+		}
+		pkts := g.Packets(rule, ipv, n)
+		for _, flavor := range []nfsim.Flavor{nfsim.Iptables, nfsim.NFT} {
+			fl := flavor.String()
+			renderer := rules.NewRenderer(cfg, flavor == nfsim.NFT)
+			rendered := renderer.ProtoRuleToIptablesRules(rule, ipv, owner, dir, idx, id, tier, untracked)
+			c.Count("renders_"+fl, 1)
+			c.Count("rules_rendered_"+fl, int64(len(rendered)))
+			if len(rendered) == 0 {
+				c.Count("renders_empty_"+fl, 1)
+			}
+			if len(rendered) > 3 {
+				c.Count("renders_with_match_blocks_"+fl, 1)
+			}
+			rs := nfsim.NewRuleset(flavor, ipv)
+			ipc := cfg.IPSetConfigV4
+			if ipv == 6 {
+				ipc = cfg.IPSetConfigV6
+			}
+			for sid, s := range sets {
+				name := ipc.NameForMainIPSet(sid)
+				if flavor == nfsim.NFT {
+					name = nftables.LegalizeSetName(name)
+				}
+				rs.AddSet(name, s, g.IsIPPortSet(sid))
+			}
+			chain := &generictables.Chain{Name: "cali-pol", Rules: append(append([]generictables.Rule(nil), rendered...),
+				// sentinel: "the next rule"
+				generictables.Rule{Match: renderer.(*rules.DefaultRuleRenderer).NewMatch(), Action: renderer.(*rules.DefaultRuleRenderer).SetMark(sentinel)})}
+			_ = rs.AddChain(chain)
+			if err := rs.Err(); err != nil {
+				if nfsim.IsRejected(err) {
+					c.Violationf("rejected-by-kernel:"+fl, detail(map[string]any{"ipVersion": ipv, "error": err.Error(), "rendered": rs.Dump()}),
+						"%s v%d: a rendered rule would be refused at load time: %v", fl, ipv, err)
+					continue
+				}
+				harnessError(c, err)
+				return
+			}
+			for _, p := range pkts {
+				pkt := &nfsim.Packet{Packet: p, CTState: nfsim.CTNew, InIface: "cali1234", OutIface: "eth0"}
+				pkt.Mark = c.R.Uint32() &^ (verdictBits | sentinel)
+				res, err := rs.Run("cali-pol", pkt)
+				if err != nil {
+					if nfsim.IsUnparsed(err) {
+						harnessError(c, err)
+						return
+					}
+					c.Violationf("walk-error:"+fl, detail(map[string]any{"ipVersion": ipv, "error": err.Error(), "rendered": rs.Dump()}), "%s v%d: %v", fl, ipv, err)
+					break
+				}
+				want := refpolicy.MatchRule(rule, &p, sets)
+				c.Count("packets_"+fl, 1)
+				if want {
+					c.Count("matches_"+fl, 1)
+					c.Count("matches_"+act.String(), 1)
+					if ipv == aim {
+						sawMatch = true
+					}
+				} else {
+					c.Count("nonmatches_"+fl, 1)
+					if ipv == aim {
+						sawNonMatch = true
+					}
+				}
+				got := (res.Mark & verdictBits)
+				fellToNext := res.Verdict == nfsim.FellThrough && !res.Returned && res.Mark&sentinel != 0
+				nLOG := 0
+				for _, l := range res.Logs {
+					if l.Kind == "LOG" {
+						nLOG++
+					}
+				}
+				bad := ""
+				switch {
+				case !want:
+					switch {
+					case res.Verdict != nfsim.FellThrough:
+						bad = "nomatch-terminal-verdict"
+					case res.Returned || res.Mark&sentinel == 0:
+						bad = "nomatch-returned"
+					case got != 0:
+						bad = "nomatch-verdict-mark-changed"
+					case nLOG != 0:
+						bad = "nomatch-logged"
+					}
+				case act == refpolicy.Allow:
+					switch {
+					case res.Verdict != nfsim.FellThrough:
+						bad = "allow-terminal-verdict"
+					case got != accept:
+						bad = "allow-wrong-mark"
+					case !res.Returned:
+						bad = "allow-no-return"
+					}
+				case act == refpolicy.Pass:
+					switch {
+					case res.Verdict != nfsim.FellThrough:
+						bad = "pass-terminal-verdict"
+					case got != pass:
+						bad = "pass-wrong-mark"
+					case !res.Returned:
+						bad = "pass-no-return"
+					}
+				case act == refpolicy.Deny:
+					wantV := nfsim.Drop
+					if reject {
+						wantV = nfsim.Reject
+					}
+					if res.Verdict != wantV {
+						bad = "deny-not-dropped"
+					}
+				case act == refpolicy.Log:
+					switch {
+					case nLOG == 0:
+						bad = "log-not-logged"
+					case !fellToNext:
+						bad = "log-did-not-continue"
+					case got != 0:
+						bad = "log-verdict-mark-changed"
+					}
+				}
+				if bad != "" {
+					c.Violationf(bad+":"+fl, detail(map[string]any{
+						"ipVersion": ipv, "renderer": fl, "packet": p.String(), "initial_mark": fmt.Sprintf("%#x", pkt.Mark),
+						"reference_match": want, "action": act.String(),
+						"observed": map[string]any{"verdict": res.Verdict.String(), "returned": res.Returned, "mark": fmt.Sprintf("%#x", res.Mark),
+							"verdict_bits": fmt.Sprintf("%#x", got), "sentinel_reached": res.Mark&sentinel != 0, "logs": res.Logs, "trace": res.TraceString()},
+						"rendered": rs.Dump()}),
+						"%s v%d: rule %s; reference match=%v action=%s but rendered rules gave verdict=%s returned=%v verdictbits=%#x next-rule-reached=%v LOGs=%d for packet %s",
+						fl, ipv, rule.RuleId, want, act, res.Verdict, res.Returned, got, res.Mark&sentinel != 0, nLOG, p)
+					break
+				}
+			}
+			_ = calicoBits
+		}
+	}
+	if nCrit > 0 && sawMatch && sawNonMatch {
+		c.NonTrivial(ruleBytes(rule))
+	}
+	c.Distinct("rule_shapes", nCrit, act.String(), rule.Protocol != nil, len(rule.SrcPorts) > 15, len(rule.DstPorts) > 15, len(rule.SrcNet) > 1, len(rule.NotSrcNet) > 0, rule.Icmp != nil, rule.NotIcmp != nil)
+	if c.Index < 8 {
+		c.Sample(map[string]any{"rule": rule.String(), "aimed_at_ipv": aim, "action": act.String()})
+	}
+}
+
+func tierFromArgs() string {
+	for i, a := range os.Args {
+		for _, p := range []string{"-tier=", "--tier="} {
+			if len(a) > len(p) && a[:len(p)] == p {
+				return a[len(p):]
+			}
+		}
+		if (a == "-tier" || a == "--tier") && i+1 < len(os.Args) {
+			return os.Args[i+1]
+		}
+	}
+	return "quick"
+}
+
+func cases(tier string) int {
+	if tier == "thorough" {
+		return 150000
+	}
+	return 3000
+}
+
 func main() {
-	_ = harness.Check{}
-	_ = rules.Config{}
-	_ = iptables.Match()
-	_ = nftables.Match()
-	_ = environment.Features{}
-	fmt.Println("warm")
+	logrus.SetOutput(io.Discard)
+	logrus.SetLevel(logrus.PanicLevel)
+	harness.Main(harness.Check{
+		ID:    "C08",
+		Level: "exploration",
+		Rule: "one generated proto.Rule per case (all criteria of DESIGN 3.1, validator-respecting, aimed at IPv4 or IPv6), random mark-bit assignment, flow logs on/off, DROP/REJECT; " +
+			"rendered by both renderers for both IP versions; ~40 boundary packets for the aimed family (CIDR edges, port range ends +-1, set members and neighbours, protocol and others, ICMP type/code) and 8 of the other family; " +
+			"non-trivial = the rule has at least one criterion and the packet set contained both a matching and a non-matching packet; distinct by the rule's bytes",
+		Assumptions: []string{
+			"internal/nfsim evaluates the rendered text with kernel semantics (calibrated by hand against nft 1.0.6 --debug=netlink for every clause shape Felix renders); it is the trusted interpreter",
+			"internal/refpolicy.MatchRule is the reference semantics, written from the data-model documentation",
+			"nft `icmp type != T code != C` is read as NOT(type==T AND code==C) (the single 2-byte compare the real nft emits for the explicit form); the local nft 1.0.6 rejects the shorthand so this shape is not calibrated",
+			"IP set names come from the real ipsets.IPVersionConfig.NameForMainIPSet; set contents are given to the simulator directly (IP set programming is C16's subject)",
+		},
+		Cases: cases,
+		Run:   run,
+		Floors: map[string]int64{
+			okCounter:                  int64(cases(tierFromArgs())),
+			"rules_rendered_iptables":  2000,
+			"rules_rendered_nft":       2000,
+			"packets_iptables":         10000,
+			"packets_nft":              10000,
+			"matches_iptables":         1500,
+			"matches_nft":              1500,
+			"nonmatches_iptables":      5000,
+			"nonmatches_nft":           5000,
+			"matches_allow":            500,
+			"matches_deny":             300,
+			"matches_pass":             150,
+			"matches_log":              80,
+			"renders_with_match_blocks_iptables": 100,
+			"renders_with_match_blocks_nft":      100,
+		},
+	})
 }
